@@ -35,10 +35,12 @@
        (reachable) or at a deferred block (waiting beneath it)                 [C09_classification, C09_no_leak]
      * a block reachable from the live variables is on no free list; the block that erase /
        release put on a list was on none, and the lists stay duplicate free    [C09_no_use_after_release, C09_no_double_release]
-     * refinement of share_block_n, erase_block and release_block to the emitted x86-64 code on the
-       ISA semantics, pointer in a register or a spill slot, null included, all branches; the image
-       is any image containing the code whose labels resolve to their positions (as mk_image gives
-       for duplicate-free labels)        [C09_x86_share_block, C09_x86_erase_block, C09_x86_release_block, C09_x86_image]
+     * refinement of share_block_n, erase_block, release_block and acquire_block (all three cases,
+       including the lazy erasure of the recycled block's children) to the emitted x86-64 code on
+       the ISA semantics, operand in a register or a spill slot, null included, all branches; the
+       image is any image containing the code whose labels resolve to their positions (as mk_image
+       gives for duplicate-free labels)
+                 [C09_x86_share_block, C09_x86_erase_block, C09_x86_release_block, C09_x86_acquire_block_reg/_spill, C09_x86_image]
 
    NOT YET PROVED (visible as missing theorems)
      * the lifting from operation traces to AxCut programs (each statement's code is a sequence of
@@ -46,9 +48,9 @@
        particular `obj_ok`: continuation blocks of an object have header 0 and no other referrer -
        follow from typing).  That link is checked by executing the implementation's code with the
        invariant evaluated at every statement boundary, see the evidence;
-     * refinement of acquire_block, store and load to the x86-64 code (checked operation by
-       operation against Model/Heap.step by the heapops-x86 correspondence step), and anything
-       about the AArch64 / RISC-V code;
+     * refinement of store and load (store_values / store_fields / load_fields, which depend on
+       typing contexts) to the x86-64 code: checked operation by operation against Model/Heap.step
+       by the heapops-x86 correspondence step; and anything about the AArch64 / RISC-V code;
      * "touches no memory outside heap, spill area and pushes": faults of the ISA model in the
        executed runs, not a theorem. *)
 From Coq Require Import List ZArith NArith Permutation FMapPositive.
@@ -247,8 +249,8 @@ Theorem C09_x86_erase_block :
     (p <> 0 -> hword s p <> 0 -> AxSem.wrap (hword s p + -1) = hword s p - 1) ->
     exists s', steps im pos s (pnth pos (List.length cs)) s' /\
        st_eqB (abs_heap F s') (Heap.erase p (abs_heap F s)) /\
-       same_but_temp_free s s' /\ frame_ok s' sp /\
-       rget s' FREE = Some (Heap.free (Heap.erase p (abs_heap F s))).
+       same_but_temp_free s s' /\
+       (frame_ok s' sp /\ rget s' FREE = Some (Heap.free (Heap.erase p (abs_heap F s)))).
 Proof. exact x86_erase_block_ok. Qed.
 Print Assumptions C09_x86_erase_block.
 
@@ -261,6 +263,47 @@ Theorem C09_x86_release_block :
        (forall r', r' <> HEAP -> rget s' r' = rget s r') /\ stack s' = stack s /\ out s' = out s.
 Proof. exact x86_release_block_ok. Qed.
 Print Assumptions C09_x86_release_block.
+
+(* acquire_block: (1) next block of the reuse list, (2) recycle the first deferred block and erase
+   its three children lazily, (3) bump.  The hypotheses about the deferred block and its children
+   are needed only on the paths that touch them; `bounded 3` keeps the three decrements away from
+   64-bit wrap-around.  The new block lands in a register ... *)
+Theorem C09_x86_acquire_block_reg :
+  forall im pos r lc s sp rv h2 F,
+    let cs := fst (acquire_block (XR r) lc) in
+    code_at im pos cs -> labels_at im pos cs ->
+    frame_ok s sp -> r <> 0%N -> r <> HEAP -> r <> FREE -> r <> TEMP ->
+    rget s HEAP = Some rv -> is_blk rv -> rget s FREE = Some h2 ->
+    (hword s rv = 0 -> is_blk h2) ->
+    (hword s rv = 0 -> hword s h2 <> 0 ->
+       (forall off, off = 16 \/ off = 32 \/ off = 48 -> hword s (h2 + off) = 0 \/ is_blk (hword s (h2 + off))) /\
+       bounded 3 s (hword s h2)) ->
+    exists s', steps im pos s (pnth pos (List.length cs)) s' /\
+      st_eqB (abs_heap (Heap.frontier (snd (Heap.acquire (abs_heap F s)))) s') (snd (Heap.acquire (abs_heap F s))) /\
+      rget s' r = Some rv /\ fst (Heap.acquire (abs_heap F s)) = rv /\
+      (forall r', r' <> r -> r' <> TEMP -> r' <> HEAP -> r' <> FREE -> rget s' r' = rget s r') /\
+      stack s' = stack s /\ out s' = out s /\ frame_ok s' sp.
+Proof. exact x86_acquire_block_reg_ok. Qed.
+Print Assumptions C09_x86_acquire_block_reg.
+
+(* ... or in a spill slot *)
+Theorem C09_x86_acquire_block_spill :
+  forall im pos q lc s sp rv h2 F,
+    let cs := fst (acquire_block (XS q) lc) in
+    code_at im pos cs -> labels_at im pos cs ->
+    frame_ok s sp -> slot_ok q ->
+    rget s HEAP = Some rv -> is_blk rv -> rget s FREE = Some h2 ->
+    (hword s rv = 0 -> is_blk h2) ->
+    (hword s rv = 0 -> hword s h2 <> 0 ->
+       (forall off, off = 16 \/ off = 32 \/ off = 48 -> hword s (h2 + off) = 0 \/ is_blk (hword s (h2 + off))) /\
+       bounded 3 s (hword s h2)) ->
+    exists s', steps im pos s (pnth pos (List.length cs)) s' /\
+      st_eqB (abs_heap (Heap.frontier (snd (Heap.acquire (abs_heap F s)))) s') (snd (Heap.acquire (abs_heap F s))) /\
+      sget s' sp q = Some rv /\ fst (Heap.acquire (abs_heap F s)) = rv /\
+      (forall r', r' <> TEMP -> r' <> HEAP -> r' <> FREE -> rget s' r' = rget s r') /\
+      (forall q', slot_ok q' -> q' <> q -> sget s' sp q' = sget s sp q') /\ out s' = out s /\ frame_ok s' sp.
+Proof. exact x86_acquire_block_spill_ok. Qed.
+Print Assumptions C09_x86_acquire_block_spill.
 
 (* the hypotheses on the image hold for mk_image of a program with duplicate-free labels, and
    `steps` is what the executable runner does *)
